@@ -568,6 +568,152 @@ Section Accept.
     { apply keeps_iff. repeat split; assumption. }
     rewrite Hnone in Hk. discriminate Hk.
   Qed.
+  (* ====================================== corollaries in the shape of C01 / C03 *)
+
+  Lemma tx_authorized_iff (reg : ureg) (t : tx) :
+    tx_authorized reg t <->
+    Forall (fun i => sig_ok i = true /\
+                     exists u, find_utxo reg i = Ok u /\ o_addr (u_out u) = addr_of (i_key i)) (ins t).
+  Proof. split; [apply tx_authorized_inputs|apply inputs_tx_authorized]. Qed.
+
+  Lemma verify_block_authorized (c : cstate) (b : block) (prev_ts now : Z) :
+    VBLOCK c b prev_ts now = Ok tt ->
+    Forall (fun t => is_reward t = false -> tx_authorized (ur c) t) (txs b).
+  Proof.
+    intros Hv. apply verify_block_bounds in Hv. destruct Hv as [HFa _].
+    eapply Forall_impl; [|exact HFa]. intros t Ht Hord. exact (proj2 (Ht Hord)).
+  Qed.
+
+  Lemma verify_new_blocks_authorized (host : cstate) (lh neigh old : list block) (now : Z)
+        (v : list block) :
+    VERIFY host lh neigh old now = Ok v ->
+    forall (i : nat) (b : block),
+      nth_error neigh i = Some b ->
+      is_new_at lh i b ->
+      ~ (old = [] /\ i = 0%nat) ->
+      exists (reg : ureg) (a : areg),
+        replay_from (init_ur host old) (init_ar host old) (removelast (firstn i neigh)) = Ok (reg, a) /\
+        Forall (fun t => is_reward t = false -> tx_authorized reg t) (txs b).
+  Proof.
+    intros Hv i b Hn Hnew Hgen.
+    destruct (verify_checks_new_blocks _ _ _ _ _ _ Hv i b Hn Hnew Hgen) as [sh [p [_ [_ [Hr Hvb]]]]].
+    exists (ur sh), (ar sh). split; [exact Hr|]. exact (verify_block_authorized _ _ _ _ Hvb).
+  Qed.
+
+  Lemma pool_add_authorized (n : node) (t : tx) (n' : node) :
+    POOL_ADD n t = Ok n' ->
+    let last := last_block_ts (chain (n_c n)) in
+    let next := (last + s_interval S)%Z in
+    exists (u1 u2 : ureg),
+      update_utxos (ur (n_c n)) (last_block_txs (chain (n_c n))) last = Ok u1 /\
+      update_utxos u1 (elems (n_pool n)) next = Ok u2 /\
+      tx_authorized u2 t.
+  Proof.
+    intros Hadd last next. apply pool_add_bounds in Hadd. cbv zeta in Hadd.
+    destruct Hadd as [u1 [u2 [E1 [E2 [_ Ha]]]]]. exists u1, u2.
+    split; [exact E1|]. split; [exact E2|exact Ha].
+  Qed.
+
+  (* the running registry of the production loop: the kept transactions applied one at a time *)
+  Fixpoint run_kept (next : Z) (u : ureg) (l : list tx) : res err ureg :=
+    match l with
+    | [] => Ok u
+    | t :: r => match update_utxos u [t] next with Err e => Err e | Ok u' => run_kept next u' r end
+    end.
+
+  Lemma kept_ok_prefix (ts next : Z) (u : ureg) (l : list tx) (fs : list N) :
+    kept_ok ts next u l fs ->
+    forall (pre : list tx) (t : tx) (post : list tx),
+      l = pre ++ t :: post ->
+      exists (u1 : ureg) (f : N),
+        run_kept next u pre = Ok u1 /\ nth_error fs (length pre) = Some f /\
+        tx_bound u1 t ts /\ tx_authorized u1 t /\ leftover u1 t ts f /\ s_fee S <= f.
+  Proof.
+    intros Hk. induction Hk as [u|u t0 f0 u' l fs H1 H2 H3 H4 Hu _ IH]; intros pre t post E.
+    - destruct pre; discriminate E.
+    - destruct pre as [|x pre'].
+      + cbn [app] in E. inversion E; subst t0 l. exists u, f0.
+        cbn [run_kept length nth_error].
+        split; [reflexivity|]. split; [reflexivity|].
+        split; [exact H1|]. split; [exact H2|]. split; [exact H3|exact H4].
+      + rewrite <- app_comm_cons in E. inversion E; subst x l.
+        destruct (IH pre' t post eq_refl) as [u1 [f [Hr Hrest]]].
+        exists u1, f. cbn [run_kept length nth_error]. rewrite Hu.
+        split; [exact Hr|exact Hrest].
+  Qed.
+
+  Lemma kept_ok_length (ts next : Z) (u : ureg) (l : list tx) (fs : list N) :
+    kept_ok ts next u l fs -> length fs = length l.
+  Proof.
+    intros Hk. induction Hk as [u|u t0 f0 u' l fs _ _ _ _ _ _ IH]; [reflexivity|].
+    cbn [length]. rewrite IH. reflexivity.
+  Qed.
+
+  (* production, transaction by transaction: each kept transaction against the registry of the
+     last block and of the transactions kept before it *)
+  Lemma produce_each (n : node) (ts : Z) (perm : list nat) (n' : node) (d : list (string * drop)) :
+    VALIDATE n ts perm = (n', Produced d) ->
+    let last := last_block_ts (chain (n_c n)) in
+    let next := (last + s_interval S)%Z in
+    exists (kept : list tx) (fees : list N) (u0 : ureg) (rt : tx) (b : block),
+      update_utxos (ur (n_c n)) (last_block_txs (chain (n_c n))) last = Ok u0 /\
+      chain (n_c n') = chain (n_c n) ++ [b] /\
+      b_ts b = ts /\
+      txs b = kept ++ [rt] /\
+      is_reward rt = true /\
+      length fees = length kept /\
+      (forall (pre : list tx) (t : tx) (post : list tx),
+         kept = pre ++ t :: post ->
+         exists (u1 : ureg) (f : N),
+           run_kept next u0 pre = Ok u1 /\ nth_error fees (length pre) = Some f /\
+           tx_bound u1 t ts /\ tx_authorized u1 t /\ leftover u1 t ts f /\ s_fee S <= f) /\
+      reward_value rt <= (if (last =? 0)%Z then s_genesis S else 0) + sumN fees.
+  Proof.
+    intros Hv last next. apply produce_bounds in Hv. cbv zeta in Hv. fold last in Hv. fold next in Hv.
+    destruct Hv as [kept [fees [u0 [rt [b [E0 [Hc [Hts [Ht [Hisr [Hk Hle]]]]]]]]]]].
+    exists kept, fees, u0, rt, b.
+    split; [exact E0|]. split; [exact Hc|]. split; [exact Hts|]. split; [exact Ht|].
+    split; [exact Hisr|]. split; [exact (kept_ok_length _ _ _ _ _ Hk)|].
+    split; [exact (kept_ok_prefix _ _ _ _ _ Hk)|exact Hle].
+  Qed.
+
+  Lemma produce_authorized (n : node) (ts : Z) (perm : list nat) (n' : node) (d : list (string * drop)) :
+    VALIDATE n ts perm = (n', Produced d) ->
+    let last := last_block_ts (chain (n_c n)) in
+    let next := (last + s_interval S)%Z in
+    exists (kept : list tx) (u0 : ureg) (rt : tx) (b : block),
+      update_utxos (ur (n_c n)) (last_block_txs (chain (n_c n))) last = Ok u0 /\
+      chain (n_c n') = chain (n_c n) ++ [b] /\
+      txs b = kept ++ [rt] /\
+      is_reward rt = true /\
+      forall (pre : list tx) (t : tx) (post : list tx),
+        kept = pre ++ t :: post ->
+        exists u1 : ureg, run_kept next u0 pre = Ok u1 /\ tx_authorized u1 t.
+  Proof.
+    intros Hv last next. apply produce_each in Hv. cbv zeta in Hv. fold last in Hv. fold next in Hv.
+    destruct Hv as [kept [fees [u0 [rt [b [E0 [Hc [_ [Ht [Hisr [_ [Hall _]]]]]]]]]]]].
+    exists kept, u0, rt, b.
+    split; [exact E0|]. split; [exact Hc|]. split; [exact Ht|]. split; [exact Hisr|].
+    intros pre t post E. destruct (Hall pre t post E) as [u1 [f [Hr [_ [_ [Ha _]]]]]].
+    exists u1. split; [exact Hr|exact Ha].
+  Qed.
+  (* the definitions, unfolded *)
+  Lemma tx_bound_unfold (reg : ureg) (t : tx) (ts : Z) :
+    tx_bound reg t ts <->
+    exists us : list utxo,
+      Forall2 (fun i u => find_utxo reg i = Ok u /\ o_addr (u_out u) = addr_of (i_key i)) (ins t) us /\
+      sumN (map o_val (outs t)) + s_fee S <= sumN (map (fun u => utxo_value value_fn u ts) us).
+  Proof. apply iff_refl. Qed.
+
+  Lemma block_bounds_unfold (reg : ureg) (b : block) :
+    block_bounds reg b <->
+    (Forall (fun t => is_reward t = false -> tx_bound reg t (b_ts b) /\ tx_authorized reg t) (txs b) /\
+     exists (fees : list N) (rt : tx),
+       Forall2 (fun t f => leftover reg t (b_ts b) f) (ordinary b) fees /\
+       In rt (txs b) /\ is_reward rt = true /\
+       length (filter is_reward (txs b)) = 1%nat /\
+       reward_value rt <= sumN fees).
+  Proof. apply iff_refl. Qed.
 End Accept.
 
 (* =================================== 4. the pinned tree's wrapping output sum *)
@@ -581,3 +727,73 @@ Lemma wrap_refuted :
     sumN (map (fun u => utxo_value wr_value_fn u 0%Z) us) < sumN (map o_val (outs t)) /\
     ~ leftover wr_value_fn wr_addr_of reg t 0%Z f.
 Proof. exact calc_fee_wrapping_refuted. Qed.
+
+(* ------------------------------------------------------------------ *)
+(* a toy instance for the examples of props/C01.v and props/C03.v      *)
+(* ------------------------------------------------------------------ *)
+Module AcceptExample.
+  Local Open Scope string_scope.
+  Definition vf : N -> bool -> Z -> N := fun v _ _ => v.
+  Definition ao : string -> string := fun k => k.
+  Definition so : input -> bool := fun _ => true.
+  (* a signature is valid when it reads "sig" followed by the key *)
+  Definition so_strict : input -> bool := fun i => String.eqb (i_sig i) (String.append "sig" (i_key i)).
+  Definition Hx : block -> hash := fun b => [Z.to_N (b_ts b)].
+  Definition gid : slice input -> slice output -> Z -> string := fun _ _ _ => "r30".
+  Definition Sx : settings := mkSettings 10 1 100 8.
+
+  (* genesis pays A 100 and B 50; the next block is empty (a reward of 0) *)
+  Definition g0tx : tx :=
+    mkTx "g0" None (Some [mkOutput "A" false 100; mkOutput "B" false 50]) 10.
+  Definition g : block := mkBlock zero_hash None None 10 (Some [g0tx]).
+  Definition e1 : block :=
+    mkBlock (Hx g) None None 20 (Some [mkTx "r20" None (Some [mkOutput "V" false 0]) 20]).
+  Definition uA : utxo := mkUtxo "g0" 0 (mkOutput "A" false 100) 10.
+  Definition uB : utxo := mkUtxo "g0" 1 (mkOutput "B" false 50) 10.
+  (* the registry once the genesis block is applied (it lags one block behind the chain) *)
+  Definition reg : ureg := mkUreg [("A", [uA]); ("B", [uB])] [("g0", [Some uA; Some uB])].
+  Definition c0 : cstate := mkC [g; e1] reg areg_empty.
+  Definition n0 : node := mkNode c0 None.
+
+  (* two inputs worth 150, two outputs worth 140: a fee of 10 where 1 is required *)
+  Definition t0 : tx :=
+    mkTx "t0" (Some [mkInput 0 "g0" "A" "sigA"; mkInput 1 "g0" "B" "sigB"])
+         (Some [mkOutput "C" false 120; mkOutput "A" false 20]) 25.
+  (* the same with a signature that does not verify *)
+  Definition t_forged : tx :=
+    mkTx "t1" (Some [mkInput 0 "g0" "A" "xx"; mkInput 1 "g0" "B" "sigB"])
+         (Some [mkOutput "C" false 120; mkOutput "A" false 20]) 25.
+  (* B signs, correctly, for an output that belongs to A *)
+  Definition t_thief : tx :=
+    mkTx "t2" (Some [mkInput 0 "g0" "B" "sigB"]) (Some [mkOutput "B" false 90]) 25.
+
+  Definition n1 : node := mkNode c0 (Some [t0]).
+  (* the node after producing the block of timestamp 30 from the pool [t0] *)
+  Definition n2 : node := fst (validate vf ao so_strict Hx gid Sx "V" n1 30 [0%nat]).
+  Definition b2 : block := match last_block (chain (n_c n2)) with Some b => b | None => g end.
+  Lemma ex_bound : tx_bound vf ao Sx reg t0 30%Z.
+  Proof.
+    exists [uA; uB]. split.
+    - repeat constructor.
+    - vm_compute. discriminate.
+  Qed.
+
+  (* one unit more paid out than 150 - 1 and the bound fails *)
+  Definition t_over : tx :=
+    mkTx "t9" (t_ins t0) (Some [mkOutput "C" false 130; mkOutput "A" false 20]) 25.
+  Lemma ex_bound_tight : ~ tx_bound vf ao Sx reg t_over 30%Z.
+  Proof.
+    intros [us [Hs Hb]].
+    assert (Hs' : spends ao reg t_over [uA; uB]) by (repeat constructor).
+    rewrite (spends_unique ao reg t_over us [uA; uB] Hs Hs') in Hb.
+    vm_compute in Hb. apply Hb. reflexivity.
+  Qed.
+
+  Lemma ex_authorized : tx_authorized ao so_strict reg t0.
+  Proof.
+    split; [vm_compute; reflexivity|]. exists [uA; uB]. repeat constructor.
+  Qed.
+
+  Lemma ex_new : is_new_at Hx [e1] 1 b2.
+  Proof. left. apply le_n. Qed.
+End AcceptExample.
